@@ -27,7 +27,7 @@ SHARD_TIMEOUT = {"quick": 600, "thorough": 3000}
 def required_counters(tier):
     return ["runs:random", "runs:pct", "runs:forced", "pop-raced-stop", "shutdown-found-queued", "followup-during-shutdown",
             "tasks:serviced", "tasks:cancelled", "tasks:still-queued", "resize-up", "resize-down", "cancel_pending:true",
-            "cancel_pending:false", "task-raised", "fifo-checked"]
+            "cancel_pending:false", "task-raised", "fifo-checked", "flood-tasks"]
 
 
 def gen_scenario(rng):
@@ -94,7 +94,8 @@ def run_scenario(scn, strat):
             return x
 
     disp = ThreadedTaskDispatcher()
-    disp.queue = RecDeque()
+    # a recording subclass of the dispatcher's own deque, with the same bound (if any)
+    disp.queue = RecDeque(disp.queue, getattr(disp.queue, "maxlen", None))
     events = {}
     next_id = [1000]
     info = {"shutdown_called_step": None, "shutdown_returned": None, "last_resize": scn["workers"], "shutdown_result": None}
@@ -155,9 +156,13 @@ def run_scenario(scn, strat):
             w.sleep(sd["at"])
         info["shutdown_called_step"] = s.steps
         hist.add("shutdown-call", s.steps, sd["cancel_pending"], len(disp.queue))
+        t_call = s.now
         r = disp.shutdown(cancel_pending=sd["cancel_pending"], timeout=5)
         info["shutdown_returned"] = s.steps
         info["shutdown_result"] = r
+        # shutdown() may return with workers still running only after its full timeout
+        info["shutdown_elapsed"] = s.now - t_call
+        info["threads_at_shutdown_return"] = sorted(disp.threads)
         hist.add("shutdown-return", s.steps, r)
 
     def releaser():
@@ -254,6 +259,9 @@ def judge(scn, hist, w, info):
             out.append(("task-queued-next-to-idle-worker",
                         f"tasks {e[2]} stayed queued while worker(s) {e[3]} waited for work (nothing but a timer could change that)"))
             break
+    if sd and info["shutdown_returned"] is not None and info.get("threads_at_shutdown_return") and info.get("shutdown_elapsed", 9) < 4.9:
+        out.append(("shutdown-returned-before-workers-stopped",
+                    f"shutdown() returned after {info['shutdown_elapsed']:.2f}s of its 5s timeout with worker(s) {info['threads_at_shutdown_return']} still registered"))
     # FIFO hand-over
     if order_pop != order_append[: len(order_pop)]:
         out.append(("handover-not-fifo", f"pop order {order_pop} vs append order {order_append}"))
@@ -318,6 +326,13 @@ def run_one(acc, scn, strat, label):
             acc.count("leaked_threads", leaked)
 
 
+def flood_scenario(n=1100):
+    """one worker held by a blocking task while n plain tasks queue up behind it (a bounded queue that
+    silently drops entries would lose some)"""
+    tasks = [{"id": 0, "kind": "block"}] + [{"id": i, "kind": "plain"} for i in range(1, n + 1)]
+    return {"workers": 1, "submitters": [{"tasks": tasks, "delay": 0, "gap": 0}], "resizes": [], "shutdown": None, "release_at": 4.0}
+
+
 def plan(tier, seed):
     specs = []
     nshards = 24 if tier == "quick" else 64
@@ -331,6 +346,7 @@ def plan(tier, seed):
         for g in range(20):
             for p in range(2):
                 specs.append({"mode": "enum", "gen_seed": seed * 13 + g, "part": p, "parts": 2, "cap": 3000})
+    specs.append({"mode": "flood", "seed": seed, "schedules": 2 if tier == "quick" else 6})
     return specs
 
 
@@ -351,6 +367,13 @@ def run_shard(spec):
             hist, w, info, vs = run_one(acc, scn, strat, label)
             if len(acc.samples) < 1:
                 acc.sample({"scenario": scn, "strategy": strat, "history": [list(e) for e in hist.ev[:40]]})
+    elif spec["mode"] == "flood":
+        scn = flood_scenario()
+        for sch in range(spec["schedules"]):
+            strat = {"kind": "np"} if sch == 0 else {"kind": "random", "seed": spec["seed"] * 7 + sch, "p": 0.02}
+            run_one(acc, scn, strat, "flood")
+        acc.count("flood-tasks", len(scn["submitters"][0]["tasks"]))
+        acc.sample({"flood": "1 blocked worker, %d tasks queued behind it" % (len(scn["submitters"][0]["tasks"]) - 1)})
     else:
         scn = spec.get("scn") or gen_scenario(random.Random(spec["gen_seed"]))
         from vf.sim.world import World  # noqa
